@@ -481,7 +481,7 @@ def entry_units(chk: Check) -> List[Tuple[str, FuncInfo, Any]]:
             out.append((ent.label, fi, None))
     for r in lm.spec.rules:
         if r.func is not None:
-            out.append(('%s.t_%s' % (lm.spec.module.name, r.name), FuncInfo('%s.t_%s' % (lm.spec.module.name, r.name), lm.spec.module, r.func), None))
+            out.append(('%s.t_%s' % (lm.spec.module.name, r.name), FuncInfo('%s.t_%s' % (lm.spec.module.name, r.name), lm.spec.module, r.func, captured=r.closure), None))
     if lm.spec.error_func is not None:
         out.append((lm.spec.module.name + '.t_error', FuncInfo(lm.spec.module.name + '.t_error', lm.spec.module, lm.spec.error_func), None))
     for name, node in g.funcs.items():
@@ -494,9 +494,49 @@ def entry_units(chk: Check) -> List[Tuple[str, FuncInfo, Any]]:
     return out
 
 
+# encodings CPython converts without consulting the codec registry; any other name goes through encodings.search_function,
+# which imports encodings.<name> the first time it is asked for (an import, a file read and an exec in the middle of eval)
+DIRECT_CODECS = {'utf-8', 'utf8', 'utf_8', 'ascii', 'us-ascii', 'latin-1', 'latin1', 'latin_1', 'iso-8859-1', 'iso8859-1',
+                 'utf-16', 'utf16', 'utf-32', 'utf32'}
+
+
+def _codec_lookup(e: Event, f) -> Optional[str]:
+    """The call converts between str and bytes with a codec that is found through the codec registry: description, else None."""
+    enc = None
+    args = [freeze(a) for a in (e.args or ())]
+    kw = {k: freeze(v) for k, v in (e.kwargs or ())}
+    if isinstance(f, tuple) and f[:1] == ('attr',) and f[2] in ('encode', 'decode'):
+        enc = args[0] if args else kw.get('encoding')
+        if enc is None:
+            return None
+    elif f in (('ref', 'builtin', 'str'), ('ref', 'builtin', 'bytes'), ('ref', 'builtin', 'bytearray')):
+        enc = args[1] if len(args) > 1 else kw.get('encoding')
+        if enc is None:
+            return None
+    elif isinstance(f, tuple) and f[:2] == ('ref', 'ext') and f[2] in ('codecs.encode', 'codecs.decode', 'codecs.lookup', 'codecs.getencoder',
+                                                                        'codecs.getdecoder', 'codecs.getreader', 'codecs.getwriter',
+                                                                        'codecs.iterencode', 'codecs.iterdecode', 'codecs.getincrementalencoder',
+                                                                        'codecs.getincrementaldecoder'):
+        enc = (args[1] if len(args) > 1 else kw.get('encoding')) if f[2] in ('codecs.encode', 'codecs.decode', 'codecs.iterencode', 'codecs.iterdecode') \
+            else (args[0] if args else kw.get('encoding'))
+        if enc is None:
+            return None
+    else:
+        return None
+    if is_const(enc) and isinstance(enc[1], str):
+        if enc[1].lower() in DIRECT_CODECS:
+            return None
+        return 'codec %r is found through the codec registry: its first use imports encodings.%s (import, file read and exec ' \
+               'while a program is evaluated)' % (enc[1], enc[1].lower().replace('-', '_'))
+    return 'the codec name %s is not a constant: the codec registry imports encodings.<name> for whatever name arrives' % show(enc)
+
+
 def classify_callee(F, e: Event) -> Tuple[str, str]:
     """('pure'|'forbidden'|'trusted'|'dynamic'|'package'|'unknown', description)"""
     f = freeze(e.func)
+    cl = _codec_lookup(e, f)
+    if cl is not None:
+        return ('forbidden', cl)
     if e.d.get('ctor'):
         return ('package', 'constructor %s' % e.resolved)
     if e.resolved:
@@ -622,6 +662,18 @@ def _r4(chk: Check, R4: str) -> None:
             for e_ in p_.events:
                 if e_.kind != 'call':
                     continue
+                # package functions handed over as values (callbacks of re.sub / sorted / map ...): whoever receives them may call them
+                for a_ in list(e_.args or ()) + [v_ for _, v_ in (e_.kwargs or ())]:
+                    fa_ = freeze(a_)
+                    stack_ = [fa_]
+                    while stack_:
+                        x_ = stack_.pop()
+                        if isinstance(x_, tuple):
+                            if x_[:1] == ('ref',) and len(x_) == 3 and x_[1] in ('fn', 'fnraw', 'func') and x_[2] in F.functions \
+                                    and '.ply' not in F.functions[x_[2]].module.name and x_[2] not in done:
+                                todo.append((x_[2], F.func(x_[2]), None))
+                            elif x_[:1] in (('tuple',), ('list',), ('partial',)):
+                                stack_.extend(y_ for y_ in x_[1:] if isinstance(y_, tuple))
                 if e_.d.get('ctor') and e_.resolved in F.classes:
                     for cq in F.mro(e_.resolved):
                         if cq in F.classes:
